@@ -20,6 +20,10 @@ Q_Few == {ChargeTok(1), ChargeTok(-2), ChargeTokOne(-1), ChargeTokZero("+")}
 Q_All == {ChargeTok(1), ChargeTok(-1), ChargeTok(2), ChargeTok(-2), ChargeTok(3), ChargeTok(-3),
           ChargeTok(10), ChargeTok(-12), ChargeTokOne(1), ChargeTokOne(-1),
           ChargeTokZero("+"), ChargeTokZero("-")}
+\* every decimal digit in every numeric position the renderers translate through a digit table (sub- and superscripts)
+C_Digits == {NoCount, IntCount(3), IntCount(4), IntCount(56), IntCount(78), IntCount(90), DecCount(6, 75, 2), DecCount(9, 8, 1)}
+Q_Digits == {ChargeTok(4), ChargeTok(-5), ChargeTok(6), ChargeTok(-7), ChargeTok(8), ChargeTok(-9), ChargeTok(18),
+             ChargeTok(-29), ChargeTok(30), ChargeTok(-13), ChargeTokOne(1)}
 P_All == AllPrefixes
 \* prefixes that contain one another (eta in beta/zeta/theta), an irregular LaTeX form (omicron) and the radical dot
 P_Few == {"alpha-", "beta-", "eta-", "theta-", "omicron-", "."}
